@@ -34,6 +34,7 @@ ASSUMPTIONS = [
 ]
 
 FUEL = 24
+NL = 4          # request lines per case
 TREES = os.path.join(BUILD, 'c11')
 
 
@@ -114,7 +115,8 @@ def model_lines(case):
     files, data = w_files(case), w_data(case)
     kind = Atom(G.entry_kind(case))
     return [proto.line(Atom('C11'), Atom('render'), Atom(m), FUEL, files, case['entry'], kind, data)
-            for m in ('inline', 'runtime')] + [proto.line(Atom('C11'), Atom('inh'), files)]
+            for m in ('inline', 'runtime')] + [proto.line(Atom('C11'), Atom('inh'), files),
+                                               proto.line(Atom('C11'), Atom('kept'), files, case['entry'], kind)]
 
 
 ERRMAP = {'NotFound': 'TemplateNotFound', 'Syntax': 'TemplateSyntaxError', 'Undefined': 'UndefinedError'}
@@ -165,6 +167,13 @@ def oracle(case, real, spec, gate=True):
     if a != b:
         return {'case': case, 'what': 'rendering with auto_reload off (includes inlined) equals rendering with auto_reload on',
                 'expected': {'runtime': b}, 'observed': {'inline': a}, 'sources': sources(case)}
+    kept = real.get('kept')
+    if kept is not None:
+        g = G.static_graph(case)
+        bad = [t for t in kept if G.find_file(case, t) is not None and not G.on_cycle(g, t)]
+        if bad:
+            return {'case': case, 'what': 'a statically named include left in the prepared stream (auto_reload off) names a missing file or a file on an include cycle',
+                    'expected': {'inlined': bad}, 'observed': {'kept': kept}, 'sources': sources(case)}
     if spec is not None and a != spec:
         return {'case': case, 'what': 'both modes produce the content of the include targets in place (data visible, macros and match templates '
                                       'from that point on, fallback exactly when missing, not-found without fallback)',
@@ -240,7 +249,7 @@ def shard(arg):
             res.failures.append(fail)
         # correspondence: model vs code, mode by mode, inside and outside the hypothesis
         for j, m in enumerate(('inline', 'runtime')):
-            mo = model_outcome(answers[3 * i + j])
+            mo = model_outcome(answers[NL * i + j])
             if mo is None:
                 res.count('model:unmodelled')
                 continue
@@ -248,11 +257,20 @@ def shard(arg):
             if mo != real[m]:
                 res.disagreements.append({'stream': 'render-' + m, 'case': case, 'model': repr(mo)[:600],
                                           'real': repr(real[m])[:600], 'sources': sources(case)})
-        lean_inh = answers[3 * i + 2] == 'T'
+        lean_inh = answers[NL * i + 2] == 'T'
         res.streams['hypothesis'] = res.streams.get('hypothesis', 0) + 1
         if lean_inh != G.in_hypothesis(case):
             res.disagreements.append({'stream': 'hypothesis', 'case': case, 'model': repr(lean_inh),
                                       'real': repr(G.in_hypothesis(case)), 'sources': sources(case)})
+        if real.get('kept') is not None:
+            ka = answers[NL * i + 3]
+            mk = None if ka in ('err', 'fuel') else list(proto.dec(ka))[1:] if ka != '( ok )' else []
+            res.streams['prepared-static-includes'] = res.streams.get('prepared-static-includes', 0) + 1
+            if real['kept']:
+                res.count('prepared:kept-static-include')
+            if mk != real['kept']:
+                res.disagreements.append({'stream': 'prepared-static-includes', 'case': case, 'model': repr(mk),
+                                          'real': repr(real['kept']), 'sources': sources(case)})
         if i < 2 and idx == 0:
             res.samples.append({'sources': sources(case), 'data': case['data'], 'inline': real['inline'], 'runtime': real['runtime']})
     return res
@@ -314,7 +332,7 @@ def corpus_shard(arg):
     answers = proto.run_lines(lines)
     for i, (case, real) in enumerate(evald):
         for j, m in enumerate(('inline', 'runtime')):
-            mo = model_outcome(answers[3 * i + j])
+            mo = model_outcome(answers[NL * i + j])
             if mo is None:
                 continue
             res.streams['corpus-' + m] = res.streams.get('corpus-' + m, 0) + 1
